@@ -68,6 +68,10 @@ class Collector:
     def note(self, k, v):
         self.notes[k] = v
 
+    def tally(self, name, key, n=1):
+        d = self.notes.setdefault(name, {})
+        d[key] = d.get(key, 0) + n
+
     def merge(self, other):
         for k, v in other.counters.items():
             self.counters[k] = self.counters.get(k, 0) + v
